@@ -30,7 +30,8 @@ LEVEL = 'fault_enumeration'
 ROLES = ['forward', 'forward-pooled', 'tunnel-pooled', 'tunnel', 'web', 'static', 'reverse', 'reverse-keepalive', 'nonutf8-target', 'close-hook-raises', 'bad-request', 'not-found', 'auth-failed', 'tls-handshake-fails']
 MODES = ['local', 'remote', 'threaded']
 RULE = ('enumeration: for each (role, mode) a fault-free dry run counts the proxy socket calls and the peer actions of the '
-        'connection; every (call ordinal x errno), (action index x peer fault), connect fault and the idle-timeout ending is run; '
+        'connection; every (call ordinal x errno), (selector register/modify ordinal x {ENOMEM, ENOSPC}), (action index x peer fault), '
+        'connect fault and the idle-timeout ending is run; '
         'plus repetition runs (25 / 200 consecutive connections with mixed endings on one executor) and Hypothesis-drawn '
         'fault/schedule combinations. Non-trivial: the abort fired while an upstream socket existed or output was pending; '
         'distinct by case hash.')
@@ -118,7 +119,7 @@ def run_case(c: Dict[str, Any], dry: bool = False) -> Dict[str, Any]:
     w = K.World(flags, max_iters=40000, settle=6, weak_ksocks=True)
     w.reaper_period = 20
     fault = None if dry else c.get('fault')
-    state: Dict[str, Any] = {'calls': 0, 'actions': 0, 'fired': False, 'upstream_existed': False, 'snapshots': [], 'conn': 0}
+    state: Dict[str, Any] = {'calls': 0, 'sel_calls': 0, 'actions': 0, 'fired': False, 'upstream_existed': False, 'snapshots': [], 'conn': 0}
     origins: List[K.Peer] = []
 
     def fac(world: K.World, addr: Tuple[str, int], idx: int) -> Tuple[K.Peer, Optional[Dict[str, Any]]]:
@@ -139,6 +140,18 @@ def run_case(c: Dict[str, Any], dry: bool = False) -> Dict[str, Any]:
             return fault['errno']
         return None
     w.global_fault_fn = gfault
+
+    def sfault(op: str, fd: int) -> Optional[str]:
+        # selector-level faults: the k-th register()/modify() of a descriptor of this connection fails like a failing epoll_ctl
+        k_ = state['sel_calls']
+        state['sel_calls'] += 1
+        if fault and fault['type'] == 'selector' and fault['k'] == k_ and state['conn'] == fault.get('conn', 0):
+            state['fired'] = True
+            state['upstream_existed'] = bool(origins)
+            return fault['errno']
+        return None
+    if mode != 'threaded':
+        w.selector_fault_fn = sfault
     if fault and fault['type'] == 'connect':
         w.connect_plan = {0: fault['what']}
         state['fired'] = True
@@ -338,7 +351,7 @@ def run_shard(spec: Dict[str, Any], seed: int, acc: Any) -> None:
         if spec['kind'] == 'enum':
             base = {'mode': spec['mode'], 'roles': [spec['role']]}
             dry = run_case(base, dry=True)
-            ncalls, nacts = dry['state']['calls'], dry['state']['actions']
+            ncalls, nacts, nsel = dry['state']['calls'], dry['state']['actions'], dry['state']['sel_calls']
             dry['world'].teardown()
             cases: List[Dict[str, Any]] = [dict(base)]
             if spec['mode'] != 'remote':
@@ -350,6 +363,9 @@ def run_shard(spec: Dict[str, Any], seed: int, acc: Any) -> None:
             for k_ in range(nacts):
                 for pf in c05.PEER_FAULTS:
                     cases.append(dict(base, fault={'type': 'peer', 'k': k_, 'what': pf}))
+            for k_ in range(nsel):
+                for e in ('ENOMEM', 'ENOSPC'):
+                    cases.append(dict(base, fault={'type': 'selector', 'k': k_, 'errno': e}))
             if spec['role'] in ('forward', 'forward-pooled', 'tunnel-pooled', 'tunnel', 'reverse', 'reverse-keepalive', 'nonutf8-target', 'close-hook-raises'):
                 for cf in c05.CONNECT_FAULTS:
                     cases.append(dict(base, fault={'type': 'connect', 'what': cf}))
@@ -364,8 +380,8 @@ def run_shard(spec: Dict[str, Any], seed: int, acc: Any) -> None:
                     acc.dontcare += 1
                 for (cl, ft, ob, ex) in vs:
                     acc.fail(c, cl, ft, ob, ex)
-            acc.exhaustive_parts.append('mode=%s role=%s: %d socket calls x %d errnos + %d peer actions x %d peer faults + connect faults + idle'
-                                        % (spec['mode'], spec['role'], ncalls, len(c05.ERRNOS), nacts, len(c05.PEER_FAULTS)))
+            acc.exhaustive_parts.append('mode=%s role=%s: %d socket calls x %d errnos + %d selector calls x 2 errnos + %d peer actions x %d peer faults + connect faults + idle'
+                                        % (spec['mode'], spec['role'], ncalls, len(c05.ERRNOS), nsel, nacts, len(c05.PEER_FAULTS)))
             return
         if spec['kind'] == 'repeat':
             roles = [r for r in ROLES if r not in ('auth-failed', 'tls-handshake-fails') and not (spec['mode'] == 'threaded' and (r == 'close-hook-raises' or r.endswith('-pooled')))]
@@ -384,11 +400,13 @@ def run_shard(spec: Dict[str, Any], seed: int, acc: Any) -> None:
         def strat(draw: Any) -> Dict[str, Any]:
             n = draw(st.integers(1, 4))
             roles = [draw(st.sampled_from([r for r in ROLES if r not in ('auth-failed', 'close-hook-raises', 'tls-handshake-fails')])) for _ in range(n)]
-            ft = draw(st.sampled_from(['errno', 'errno', 'peer', 'connect', 'idle', 'none']))
+            ft = draw(st.sampled_from(['errno', 'errno', 'peer', 'connect', 'idle', 'none', 'selector']))
             conn = draw(st.integers(0, n - 1))
             fault: Optional[Dict[str, Any]] = None
             if ft == 'errno':
                 fault = {'type': 'errno', 'k': draw(st.integers(0, 30)), 'errno': draw(st.sampled_from(c05.ERRNOS)), 'conn': conn}
+            elif ft == 'selector':
+                fault = {'type': 'selector', 'k': draw(st.integers(0, 12)), 'errno': draw(st.sampled_from(['ENOMEM', 'ENOSPC'])), 'conn': conn}
             elif ft == 'peer':
                 fault = {'type': 'peer', 'k': draw(st.integers(0, 10)), 'what': draw(st.sampled_from(c05.PEER_FAULTS)), 'conn': conn}
             elif ft == 'connect':
